@@ -56,7 +56,7 @@ def _variant(v, tag):
     if v == 3:
         return {a: List[int], "b": Optional[str]}, Dict[str, int], None
     if v == 4:   # a wide row (spill campaigns)
-        return {f"{a}_{i}": Dict[str, List[int]] for i in range(12)}, int, None
+        return {f"{a}_{i}": Dict[str, List[int]] for i in range(6)}, int, None
     raise ValueError(v)
 
 
@@ -263,12 +263,22 @@ class Interner:
     """rows, batches and query ops get short names defined once in the shard header"""
 
     def __init__(self):
+        import threading
         self.rows = {}
         self.batches = {}
         self.queries = {}
         self.defs = []
+        self.lock = threading.RLock()
 
     def row(self, t):
+        with self.lock:
+            return self._row(t)
+
+    def batch(self, rows):
+        with self.lock:
+            return self._batch(rows)
+
+    def _row(self, t):
         t = tuple(t)
         if t not in self.rows:
             name = f"w{len(self.rows)}"
@@ -284,7 +294,7 @@ class Interner:
     def rows_term(self, rows):
         return common.coq_list(self.row(r) for r in rows)
 
-    def batch(self, rows):
+    def _batch(self, rows):
         """rows: [tuple | None]"""
         key = tuple(rows)
         if key not in self.batches:
@@ -305,6 +315,19 @@ class Interner:
 
     def header(self):
         return "From MT Require Import StoreCases.\nOpen Scope list_scope.\n" + "\n".join(self.defs) + "\n"
+
+    def compile_defs(self, workdir, name="c09defs"):
+        """compile the definitions once into <workdir>/<name>.vo; returns the header the case shards start with"""
+        path = os.path.join(workdir, name + ".v")
+        with open(path, "w") as f:
+            f.write(self.header())
+        import subprocess
+        p = subprocess.run(["coqc", "-q", "-Q", common.COQ, "MT", "-Q", workdir, "C09W", path], capture_output=True,
+                           text=True, timeout=600, cwd=workdir)
+        if p.returncode != 0:
+            raise RuntimeError(f"coqc failed on {path}:\n{(p.stdout + p.stderr)[-3000:]}")
+        return (f'From MT Require Import StoreCases.\nSet Warnings "-deprecated".\nAdd LoadPath "{workdir}" as C09W.\n'
+                f"Require Import C09W.{name}.\nOpen Scope list_scope.\n")
 
 
 def step_term(it: Interner, op, obs):
@@ -410,13 +433,14 @@ def writer_batch(wid, j, size=4):
 
 
 def kill_batches(wide, n_rows):
-    """(A, B): A is committed before the fault, B is the batch being written when the process dies"""
+    """(A, B): A is committed before the fault, B is the batch being written when the process dies.  B cycles through
+    14 distinct rows, so a long transaction stays a short Gallina term."""
     v = 4 if wide else 0
     a = [["t", "m", QUALNAMES[i % 7], v, "A%d" % i] for i in range(3)]
     b = []
     for i in range(n_rows):
-        b.append(["t", MODULES[i % 2], QUALNAMES[i % 7], v, "B%d" % i])
-        if i % 5 == 2:
+        b.append(["t", MODULES[i % 2], QUALNAMES[i % 7], v, "B%d" % (i % 14)])
+        if i % 5 == 2 and i < 40:
             b.append(["bad", "arg"])
     return a, b
 
